@@ -30,7 +30,7 @@ def idea(seed):
     return ""
 out = []
 out.append("# Seeded changes: what the checks report\n")
-out.append("Ten realistic changes per property (eleven for C06 C08 C10 C13 C14 C15 C20 C22: `Cxx-K`, a fifth wave in the third session, one change per property, same prompt as the fourth wave; their lines come from single runs of `tools/seedtest2.sh`, not from the full sweep): `Cxx-A/B` (first session), `Cxx-C/D`, `Cxx-E/F`, `Cxx-G/H` and `Cxx-I/J` (second session; fresh sub-agents that were given only the property text — from E on also its anchored mechanisms, for G/H and I/J the hint that the obvious sites were taken — and a scratch worktree). Each compiles, passes the pinned suite and ships a demonstration test that fails with the change and passes without it (`tools/confirm_seed.sh`; see each `NOTES.md` / `meta.json`). `tools/seedtest2.sh <patch> Cxx` applies one to a scratch worktree of `/repo` and points the check at it; `/repo` itself is never touched.\n")
+out.append("Ten realistic changes per property (eleven for C05-C08 C10 C11 C13-C17 C20-C23: `Cxx-K`, a fifth wave in the third session, one change per property, same prompt as the fourth wave; their lines come from single runs of `tools/seedtest2.sh`, not from the full sweep): `Cxx-A/B` (first session), `Cxx-C/D`, `Cxx-E/F`, `Cxx-G/H` and `Cxx-I/J` (second session; fresh sub-agents that were given only the property text — from E on also its anchored mechanisms, for G/H and I/J the hint that the obvious sites were taken — and a scratch worktree). Each compiles, passes the pinned suite and ships a demonstration test that fails with the change and passes without it (`tools/confirm_seed.sh`; see each `NOTES.md` / `meta.json`). `tools/seedtest2.sh <patch> Cxx` applies one to a scratch worktree of `/repo` and points the check at it; `/repo` itself is never touched.\n")
 out.append("Last full sweep: %s, quick tier, `VERIF_SEED=1`, each seed against the check of the property it was written for (`tools/sweep_seeds.sh`; wall clock of the whole check, six sweeps in parallel).\n" % datetime.date.today().isoformat())
 out.append("| seed | own property's quick check | what the change is / note |\n|---|---|---|")
 hit = miss = na = 0
